@@ -425,7 +425,24 @@ CLAIMED = {
              "token splitting and overflow at INT_MAX are not decided.",
         technique="decision-table folding over ordering representatives with a small abstract interpreter for the parse loop body",
         design="5/C43 (revised in 0.5)"),
+    "C49": dict(
+        text="Decides, on every CFG path of mem_hdr and mem_node: argument roles and bounds of both memcpy()s; that node length, the high-water mark and the returned "
+             "count move by exactly the copied amount; the ordering tables that gate node removal (only nodes ending at or below the release offset, never the last, never "
+             "write-pending), node reuse (canAccept), lookup equality (NodeCompare) and contiguity; that the copy and write loops look up the node for the current offset and "
+             "advance each cursor once per iteration by the returned count; closed by who-calls over removal and the worker functions. Byte-for-byte conformance over "
+             "write/free/read histories, the splay container and integer conversions are not decided.",
+        technique="symbolic linear normal forms of expressions + ordering decision tables over path-sensitive must-facts + loop bookkeeping checks in the product CFG + whole-program who-calls",
+        design="5/C49 (revised in 0.5)"),
+    "C50": dict(
+        text="Decides from the loop shape that every CharacterSet mutator is pointwise (single constant store gated by the tested source element, cursors in lock-step from "
+             "begin() to end(), addRange inclusive, 256-slot zeroed storage, complement = logical_not over the whole table): exactly what the folding model used for C22 "
+             "assumes. For each Tokenizer operation: which SBuf search runs with which set, the zero-length/no-match failure gates, that the amount consumed is the matched "
+             "length and the consumed piece is what is returned, and that failure paths consume nothing (token() restores its copy). Set algebra and maximal munch over all "
+             "byte values, CharacterSet::operator[] and the SBuf search primitives are taken as specified.",
+        technique="loop-shape recognition with lock-step cursor checks + ordering decision tables (path-sensitive for disjunctions) + structural argument-role patterns",
+        design="5/C50 (revised in 0.5)"),
 }
+
 
 
 
@@ -437,6 +454,4 @@ NOT_APPLICABLE = {
            "only shape-visible clause (a truncated body is never presented as complete) is already decided under C01/C10.",
     "C19": "Cross-process schedules over shared memory; byte identity across workers is a run-time relation. The shape-visible core (the lock/slice protocol of the shared "
            "index) is claimed under C54/C55/C53; the remainder needs execution or model checking, which is another technique family.",
-    "C49": "Conformance of mem_hdr with a byte-map model over write/free/read histories; stmem.cc has no gate other than value-dependent assertions.",
-    "C50": "Set algebra over 256-entry tables and maximal-munch of Tokenizer are per-value semantics; the constants built with them are folded and checked under C22.",
 }
